@@ -96,10 +96,10 @@ class Tween(Contract):
             xs, parts, S = self.spec(a, i)
             y = loc['__yield']
             ye = M.list_to_seq(I, y, ELT)
-            first = loc['first']
+            first = FR.the_flag(loc, ('iterable', 'delim', 'prefix', 'suffix'))
             return {'yielded_so_far': ye == (z3.Concat(*parts) if len(parts) > 1 else parts[0]),
                     'first_flag': T.zbool(M.lift(first)) == (i == 0)}
-        return {('tween', 1): LoopInv(inv, var_types={'first': 'bool', '__yield': ('list', ELT), 'i': ELT})}
+        return {('tween', 1): LoopInv(inv, var_types={'__yield': ('list', ELT)})}
 
 
 class WriteEachBase(Contract):
